@@ -49,7 +49,7 @@ for name in sorted(os.listdir(src)):
         print('%s %s %s: demo %d->%d tests %d/%d keys=%s %s' % ('KEEP' if ok else 'DROP', res['check_verdict'], d, res['demo_rc_without_patch'],
               res['demo_rc_with_patch'], res['tests_passed'], res['tests_failed'], res['check_keys'][:2], res['check_tail'][-200:]))
         if ok:
-            dst = os.path.join(V, 'seeded', '%s-%s' % (pid, name))
+            dst = os.path.join(V, 'seeded', '%s-%s%s' % (pid, os.environ.get('MUT_PREFIX', ''), name))
             os.makedirs(dst, exist_ok=True)
             shutil.copy(os.path.join(d, 'patch.diff'), dst); shutil.copy(os.path.join(d, 'demo.py'), dst)
             meta = json.load(open(os.path.join(d, 'meta.json'))) if os.path.exists(os.path.join(d, 'meta.json')) else {}
